@@ -401,3 +401,17 @@ PROPS["C19"]["level_text"] = PROPS["C19"]["level_text"].replace(
     "the record stream is defined from ProguardRecordIter::next, which is verified against the prophetic iterator laws.",
     "the record stream records(bytes) (skip line terminators; stop when nothing is left; else one item, then the stream of its remainder) is what ProguardRecordIter::next yields, verified against the prophetic iterator laws "
     "(this obligation failed on the tree as found: defect D8).")
+
+# ---- C05: the generative direction for member lines; C04: "last class line wins" at the level of the fold; C13: StackTrace::cause ----
+PROPS["C05"]["level_text"] = PROPS["C05"]["level_text"].replace(
+    "A print/parse lemma is NOT claimed.",
+    "GENERATIVE DIRECTION (pure lemmas, u5): for all parts of the documented shape (type without space that does not start with a digit, name without space or `(`, arguments without `)`, original lines only after an "
+    "argument list, everything UTF-8 and free of line terminators; numbers printed in decimal) the printed line `    [S:E:]TYPE NAME[(ARGS)[:OS[:OE]]] -> OBF` followed by nothing or by a line terminator and anything is accepted by "
+    "member_spec with exactly these parts, and line_spec gives the record member_arec prescribes -- which the real parser returns (item_and_rest_are_exactly_those_of_the_reference_parser). Class lines: lemma_class_line_accepted. "
+    "Header lines: the reference parser header_spec only (key / value up to str::trim, which is abstract).")
+PROPS["C05"]["assumed"] = PROPS["C05"].get("assumed", []) + [
+    "dec(n): the decimal rendering a printer writes consists of ASCII digits, is not empty, is UTF-8, and str::parse::<usize> reads n back; \"\".parse::<usize>() is an error (two axioms, std documentation)"]
+PROPS["C04"]["assumed"] = [x for x in PROPS["C04"].get("assumed", []) if not x.startswith("'last class line wins'")] + [
+    "'last class line wins': proved for the abstract fold (u23: under an obfuscated name, built(records) holds the class of the LAST block with that name, with that block's original name) and the builders are proved equal to the fold "
+    "(u13, u14); HashMap::insert / BTreeMap::insert overwrite (their contracts) inside the builders are assumed"]
+PROPS["C13"]["assumed"] = [x.replace("StackTrace::cause (Option::as_deref), ", "") for x in PROPS["C13"].get("assumed", [])]
